@@ -25,6 +25,7 @@ from pyvc.spec import Target, Lemma              # noqa: E402
 from pyvc.core import Sym                        # noqa: E402
 
 FINDINGS_FILE = os.path.join(HERE, 'known_findings.jsonl')
+OUT = os.environ.get('PYVC_OUT') or HERE       # evidence/ and replays/ go here (mutant runs redirect them to scratch)
 
 
 def load_findings(prop):
@@ -58,7 +59,7 @@ def jsonable(v, depth=0):
 
 
 def write_replay(prop, ob, verdict, detail, target):
-    d = os.path.join(HERE, 'replays', prop)
+    d = os.path.join(OUT, 'replays', prop)
     os.makedirs(d, exist_ok=True)
     safe = ob.oid.split('::')[-1].replace('/', '_').replace(':', '_').replace(' ', '_')
     path = os.path.join(d, '%s.%s.json' % (safe, ob.path))
@@ -192,39 +193,56 @@ def run_property(prop, tier, seed, only=None, verbose=False):
     for ob in all_obs:
         if ob.status == 'unknown':
             status['unknown'].append("%s (path %s): %s" % (ob.oid, ob.path, ob.solver_out))
-    refuted = [ob for ob in all_obs if ob.status == 'refuted']
     seen_viol = set()
+    MAX_REPLAYS = 16
     for rep in reports:
+        t = rep.target
+        by_oid = {}
         for ob in rep.obligations:
-            if ob.status != 'refuted' or ob.oid in seen_viol:
+            if ob.status == 'refuted':
+                by_oid.setdefault(ob.oid, []).append(ob)
+        for oid, obs in by_oid.items():
+            if oid in seen_viol:
                 continue
-            t = rep.target
-            if isinstance(t, Target):
-                verdict, detail = verify.replay_obligation(t, ob)
-            elif hasattr(t, 'replay'):
-                try:
-                    verdict, detail = t.replay(ob.model or {})
-                except Exception as err:
-                    verdict, detail = 'no-replay', {"reason": "lemma replay failed: %s: %s" % (type(err).__name__, err)}
-            else:
-                verdict, detail = 'no-replay', {"reason": "lemma (no code to replay)"}
+            seen_viol.add(oid)
+            # Several paths may refute the same clause.  A counter-model that does not reproduce natively (typically a
+            # value on a double-precision boundary of a float-sensitive target) does not decide anything by itself:
+            # the other refuting paths are replayed before the obligation is called a checker error.
+            outcomes = []
+            chosen = None
+            for ob in obs[:MAX_REPLAYS]:
+                if isinstance(t, Target):
+                    verdict, detail = verify.replay_obligation(t, ob)
+                elif hasattr(t, 'replay'):
+                    try:
+                        verdict, detail = t.replay(ob.model or {})
+                    except Exception as err:
+                        verdict, detail = 'no-replay', {"reason": "lemma replay failed: %s: %s" % (type(err).__name__, err)}
+                else:
+                    verdict, detail = 'no-replay', {"reason": "lemma (no code to replay)"}
+                outcomes.append((verdict, ob, detail))
+                if verdict == 'confirmed':
+                    chosen = (verdict, ob, detail)
+                    break
+            if chosen is None:
+                noreplay = [o for o in outcomes if o[0] not in ('confirmed', 'contradicted')]
+                chosen = noreplay[0] if noreplay else outcomes[0]
+            verdict, ob, detail = chosen
+            if isinstance(detail, dict):
+                detail = dict(detail, replays_tried=len(outcomes), refuting_paths=len(obs))
             if verdict == 'confirmed':
                 path = write_replay(prop, ob, verdict, detail, t)
                 status['violations'].append(('obligation', ob, path, ''))
-                seen_viol.add(ob.oid)
             elif verdict == 'contradicted':
                 path = write_replay(prop, ob, verdict, detail, t)
-                status['errors'].append("%s: counter-model does not reproduce on the real code (engine or contract "
-                                        "defect), see %s" % (ob.oid, path))
-                seen_viol.add(ob.oid)
+                status['errors'].append("%s: none of %d counter-models reproduces on the real code (engine or contract "
+                                        "defect), see %s" % (ob.oid, len(outcomes), path))
             else:
                 if baseline is not None and ob.oid in baseline:
                     path = write_replay(prop, ob, 'no-failing-input-found', detail, t)
                     status['violations'].append(('obligation', ob, path, ' no-failing-input-found'))
-                    seen_viol.add(ob.oid)
                 else:
                     status['unknown'].append("%s refuted but not replayable and not in the baseline: %s" % (ob.oid, detail))
-                    seen_viol.add(ob.oid)
 
     n_inst = len(all_obs)
     n_inst_ok = sum(1 for ob in all_obs if ob.status == 'discharged')
@@ -232,11 +250,23 @@ def run_property(prop, tier, seed, only=None, verbose=False):
     n_log_ok = sum(1 for oid, obs in logical.items() if all(o.status == 'discharged' for o in obs))
     wall = time.time() - t0
 
+    # ---- deliberately broken bodies (thorough tier only; never changes the exit status)
+    mutants = None
+    if tier == 'thorough' and not only and not os.environ.get('PYVC_NO_MUTANTS'):
+        from pyvc import mutants as _mut
+        if _mut.load(prop):
+            mutants = _mut.run_all(prop, say=say)
+            say("  [mutants] %d/%d killed; survived: %s; not decided: %s; neutral edits silent: %d/%d" % (
+                mutants['killed'], mutants['total'], [r['id'] for r in mutants['survived']],
+                [(r['id'], r['status']) for r in mutants['not_decided']],
+                mutants['neutral_edits_silent'], mutants['neutral_edits']))
+
     # ---- evidence
     ev = build_evidence(prop, tier, seed, mod, reports, logical, n_inst, n_inst_ok, n_log, n_log_ok, status,
                         bounded_results, open_findings, fixed, wall)
-    os.makedirs(os.path.join(HERE, 'evidence'), exist_ok=True)
-    with open(os.path.join(HERE, 'evidence', '%s.json' % prop), 'w') as f:
+    os.makedirs(os.path.join(OUT, 'evidence'), exist_ok=True)
+    ev['coverage']['mutants'] = mutants if mutants is not None else "thorough tier only (mutants/%s.json)" % prop
+    with open(os.path.join(OUT, 'evidence', '%s.json' % prop), 'w') as f:
         json.dump(ev, f, indent=1)
 
     # ---- report
@@ -288,6 +318,7 @@ def build_evidence(prop, tier, seed, mod, reports, logical, n_inst, n_inst_ok, n
     paths = 0
     cross = 0
     samples = []
+    second = {}
     for rep in reports:
         t = rep.target
         for x in getattr(t, 'trusted', ()):
@@ -315,6 +346,8 @@ def build_evidence(prop, tier, seed, mod, reports, logical, n_inst, n_inst_ok, n
         elif isinstance(t, Lemma):
             funcs.append({"lemma": t.name, "obligation_instances": len(rep.obligations)})
         solver_s += rep.solver_seconds
+        for k, v in rep.second.items():
+            second[k] = second.get(k, 0) + v
         covers += len(rep.covered)
         sites += rep.n_sites
         paths += rep.paths
@@ -340,6 +373,9 @@ def build_evidence(prop, tier, seed, mod, reports, logical, n_inst, n_inst_ok, n
             "paths_explored": paths, "branch_sides_covered": covers, "branch_sites": sites,
             "paths_cross_checked_against_cpython": cross,
             "bounded_checks": bounded_results,
+            "second_solver": ({"rechecked_z3_discharges": sum(second.values()), "verdicts": second,
+                                    "note": "z3-5.1 discharges re-checked on the SMT-LIB dump by cvc5 1.0.3, then by the Debian z3 4.8.12 build when cvc5 gives up; unsat = agreement; sat would be a checker error (exit 3)"}
+                                   if tier == 'thorough' else "thorough tier only"),
             "known_findings_open": [{"what": f['what'], "obligation": f.get('obligation'), "still_fails": f.get('_still_fails'),
                                      "carve_out": f.get('carve_out')} for f in open_findings],
             "fixed": fixed,
